@@ -5198,6 +5198,11 @@ func fillLoopCoversRule(c *Ctx, r *Result, rule string, floor int) {
 					if !isMS || loop[ms.Block()] {
 						continue
 					}
+					// only loops tested at the top: in a rotated loop (`for i := range n`) the test at the bottom is about
+					// the next iteration and legitimately reads i+1 < n
+					if blk == hdr || !hdr.Dominates(blk) {
+						continue
+					}
 					if sameByName(fb, fb.lin(ms.Len), fb.lin(cmp.Y)) {
 						filled = true
 					}
